@@ -21,6 +21,7 @@ type c14World struct {
 	facs    []rdf.BlankNodeFactory
 	sfacs   []blanknodes.StringFactory
 	provs   []blanknodes.StringProvider
+	pfmt    []string
 	uprovs  []blanknodes.StringProvider
 	useen   []map[string]int
 	maps    []blanknodes.Mapper
@@ -78,9 +79,19 @@ func c14Seq(r *hx.Rand, n int, out *hx.Out, _ []string) {
 			emit(op, o)
 		}
 		nops := 4 + rr.Intn(50)
+		long := c%25 == 24 // a long history: hundreds of nodes through few providers (tables, caches and counters wrap late)
+		if long {
+			nops = 600 + rr.Intn(900)
+		}
 		lookups := 0
 		for i := 0; i < nops; i++ {
 			k := rr.Intn(20)
+			if long && i > 12 {
+				k = []int{5, 6, 7, 11, 12, 13, 14, 17, 18}[rr.Intn(9)]
+				if len(w.provs) == 0 {
+					k = 2
+				}
+			}
 			switch {
 			case k == 0 && len(w.facs) < 4:
 				w.facs = append(w.facs, rdf.NewBlankNodeFactory())
@@ -91,7 +102,9 @@ func c14Seq(r *hx.Rand, n int, out *hx.Out, _ []string) {
 				w.facs = append(w.facs, blanknodes.VerifAnonFactory(sf))
 				emit("S", "-")
 			case k == 2 && len(w.provs) < 3:
-				w.provs = append(w.provs, blanknodes.NewInt64StringProvider("%d"))
+				f := hx.Pick(rr, []string{"%d", "", "b%d", "n%dx"})
+				w.provs = append(w.provs, blanknodes.NewInt64StringProvider(f))
+				w.pfmt = append(w.pfmt, f)
 				emit("P", "-")
 			case k == 3 && len(w.uprovs) < 2:
 				w.uprovs = append(w.uprovs, blanknodes.NewUUIDStringProvider("", nil))
@@ -134,10 +147,20 @@ func c14Seq(r *hx.Rand, n int, out *hx.Out, _ []string) {
 				}
 			case k < 15 && len(w.provs) > 0 && len(w.nodes) > 0:
 				p, nk := rr.Intn(len(w.provs)), rr.Intn(len(w.nodes))
+				if long && rr.Chance(2, 3) { // mostly label the newest nodes so that many distinct nodes get labels
+					nk = len(w.nodes) - 1 - rr.Intn(min(3, len(w.nodes)))
+				}
 				s := w.provs[p].GetBlankNodeString(w.nodes[nk])
-				v, err := strconv.ParseInt(s, 10, 64)
-				o := "L" + s
-				if err != nil || v < 0 {
+				num := s
+				switch w.pfmt[p] {
+				case "", "b%d":
+					num = strings.TrimPrefix(s, "b")
+				case "n%dx":
+					num = strings.TrimSuffix(strings.TrimPrefix(s, "n"), "x")
+				}
+				v, err := strconv.ParseInt(num, 10, 64)
+				o := "L" + num
+				if err != nil || v < 0 || fmt.Sprintf(map[string]string{"": "b%d"}[w.pfmt[p]]+w.pfmt[p], v) != s {
 					o = "L?" + s
 				}
 				emit(fmt.Sprintf("g%d:%d", p, nk), o)
@@ -175,8 +198,8 @@ func c14Seq(r *hx.Rand, n int, out *hx.Out, _ []string) {
 			}
 		}
 		out.Emit(hx.Case{Kind: "K/C14/seq", Line: "bn\t" + strings.Join(ops, ";"), Impl: strings.Join(outs, ";"),
-			Class: fmt.Sprintf("ops=%d-%d", nops/10*10, nops/10*10+9), NonTri: lookups >= 2 && len(w.nodes) >= 3, Oracle: oracle,
-			Desc: strings.Join(ops, " ")})
+			Class: fmt.Sprintf("ops=%d-%d", min(nops, 600)/10*10, min(nops, 600)/10*10+9), NonTri: lookups >= 2 && len(w.nodes) >= 3, Oracle: oracle,
+			Desc: strings.Join(ops[:min(len(ops), 80)], " ")})
 	}
 }
 
@@ -296,6 +319,51 @@ func c14Conc(r *hx.Rand, n int, out *hx.Out, _ []string) {
 						}
 					}
 				}
+			}
+		}
+		// first-call races: all goroutines ask about the same brand-new node at the same moment
+		rounds := 150
+		for rd := 0; rd < rounds && oracle == ""; rd++ {
+			node := sfac.NewStringBlankNode(fmt.Sprintf("r%d", rd))
+			labs, ulabs, imgs := make([]string, G), make([]string, G), make([]rdf.BlankNode, G)
+			var wg2 sync.WaitGroup
+			gate := make(chan struct{})
+			for g := 0; g < G; g++ {
+				wg2.Add(1)
+				go func(g int) {
+					defer wg2.Done()
+					<-gate
+					switch (g + rd) % 3 {
+					case 0:
+						imgs[g] = mp.MapBlankNode(node)
+						labs[g] = prov.GetBlankNodeString(node)
+						ulabs[g] = uprov.GetBlankNodeString(node)
+					case 1:
+						labs[g] = prov.GetBlankNodeString(node)
+						ulabs[g] = uprov.GetBlankNodeString(node)
+						imgs[g] = mp.MapBlankNode(node)
+					default:
+						ulabs[g] = uprov.GetBlankNodeString(node)
+						imgs[g] = mp.MapBlankNode(node)
+						labs[g] = prov.GetBlankNodeString(node)
+					}
+				}(g)
+			}
+			close(gate)
+			wg2.Wait()
+			for g := 1; g < G; g++ {
+				if labs[g] != labs[0] {
+					oracle = fmt.Sprintf("first-call race: one node got int64 labels %q and %q", labs[0], labs[g])
+				}
+				if ulabs[g] != ulabs[0] {
+					oracle = fmt.Sprintf("first-call race: one node got UUID labels %q and %q", ulabs[0], ulabs[g])
+				}
+				if !imgs[g].TermEquals(imgs[0]) {
+					oracle = "first-call race: MapBlankNode sent one node to two different nodes"
+				}
+			}
+			if again := mp.MapBlankNode(node); !again.TermEquals(imgs[0]) {
+				oracle = "first-call race: MapBlankNode answer changed afterwards"
 			}
 		}
 		out.Emit(hx.Case{Kind: "K/C14/concurrent", Impl: fmt.Sprintf("goroutines=%d ops=%d fresh=%d", G, per, len(all)),
